@@ -193,3 +193,26 @@ package remote
 //@   ensures [C15:callback-error-identity] refFnCalls == 1 && refFnErr != nil ==> result1 == refFnErr
 //@
 //@ pure isFilterApplied(applied string, requested string) bool = applied != "" && requested != "" && (exists i int :: 0 <= i && i < splitCount(applied, ",") && splitPart(applied, ",", i) == requested)
+//@
+//@ ghost local pqValues url.Values
+//@ ghost local pqFrom *url.URL
+//@ ghost local pqDigest bool
+//@ ghost local pqEncoded string
+//@ ghost local pqEncodedFrom url.Values
+//@ ghost local putCalls int
+//@ ghost local putResp *http.Response
+//@ func (*blobStore).completePushAfterInitialPost
+//@   requires [wf] s.repo != nil && req != nil && req.URL != nil && resp != nil && resp.Request != nil
+//@   entry set pqDigest = false
+//@   entry set putCalls = 0
+//@   call (*URL).Query set pqValues = result
+//@   call (*URL).Query set pqFrom = args.u
+//@   call Values.Set set pqDigest = pqDigest || (args.v == pqValues && args.key == "digest" && args.value == expected.Digest)
+//@   call Values.Encode set pqEncoded = result
+//@   call Values.Encode set pqEncodedFrom = args.v
+//@   call do requires [C13:put-query-keeps-session-and-adds-digest] pqDigest && pqEncodedFrom == pqValues && pqFrom == args.req.URL && args.req.URL.RawQuery == pqEncoded
+//@   call do requires [C13:put-length-is-descriptor-size] args.req.ContentLength == expected.Size
+//@   call do set putCalls = putCalls + 1
+//@   call do set putResp = result0
+//@   ensures [C13:success-only-on-201] result == nil ==> putCalls == 1 && putResp.StatusCode == 201
+//@   ensures [C13:one-request-at-most] putCalls <= 1
